@@ -95,6 +95,8 @@ def gen_errorfree(draw):
         if draw(st.integers(0, 5)) == 0:
             sp["bx"] = "BX%d_%d_%s" % (sp["hap"], draw(st.integers(0, 2)), sp["sample"])
     c["read_specs"] += extra
+    if len(c["contigs"]) == 2 and draw(st.integers(0, 5)) == 0:
+        c["vcf_empty_contig"] = c["contigs"][draw(st.integers(0, 1))]["name"]
     c["unmapped"] = draw(st.integers(0, 2))
     c["unmapped_placed"] = draw(st.integers(0, 1))
     contigs = [x["name"] for x in c["contigs"]]
@@ -139,6 +141,8 @@ def write_phased_vcf(case, path, swap_extra=None):
         for c in case["contigs"]:
             name = c["name"]
             variants = case["variants"][name]
+            if case.get("vcf_empty_contig") == name:
+                continue        # the contig is declared but has no record: its alignments pass through untagged
             for vi, v in enumerate(variants):
                 if v.get("hidden"):
                     continue
@@ -248,7 +252,8 @@ class ErrorFreePart:
         bam, reads = build_bam(case, os.path.join(d, "reads.bam"))
         o = case["opts"]
         out = os.path.join(d, "tagged.bam")
-        run_tool(vcf, bam, out, ref, o)
+        hl = os.path.join(d, "haplotags.tsv")
+        run_tool(vcf, bam, out, ref, o, hl=hl)
         names = [c["name"] for c in case["contigs"]]
         with pysam.AlignmentFile(bam, check_sq=False) as f:
             inp = list(f.fetch(until_eof=True))
@@ -286,6 +291,26 @@ class ErrorFreePart:
                     sig += ":read-overlapping-two-regions-duplicated"
             ctx.violation(sig, "output has %d records, expected %d; first difference at index %s; regions %r" % (
                 len(got_keys), len(want_keys), next((i for i, (x, y) in enumerate(zip(got_keys, want_keys)) if x != y), min(len(got_keys), len(want_keys))), o["regions"]))
+        # ---- the haplotag list describes the written primary alignments, in order
+        try:
+            with open(hl) as f:
+                lines = [l.rstrip("\n").split("\t") for l in f]
+        except OSError as e:
+            lines = None
+            ctx.violation("haplotag:list-missing", "haplotag list not written: %s" % e)
+        if lines is not None:
+            if not lines or lines[0] != ["#readname", "haplotype", "phaseset", "chromosome"]:
+                ctx.violation("haplotag:list-header", "first line of the haplotag list is %r" % (lines[:1],))
+            want_lines = []
+            for a in res:
+                if a.reference_id < 0 or a.is_secondary or a.is_supplementary:
+                    continue
+                t = phase_tags(a)
+                want_lines.append([a.query_name, "H%d" % t["HP"] if "HP" in t else "none", str(t["PS"]) if "PS" in t else "none", names[a.reference_id]])
+            if lines[1:] != want_lines:
+                i = next((i for i, (x, y) in enumerate(zip(lines[1:], want_lines)) if x != y), min(len(lines) - 1, len(want_lines)))
+                ctx.violation("haplotag:list-vs-bam", "haplotag list has %d entries, the output BAM %d primary alignments on the contigs; first difference at %d: %r vs %r" % (
+                    len(lines) - 1, len(want_lines), i, lines[1:][i:i + 1], want_lines[i:i + 1]))
         # ---- decision (truth) for tagged reads, per name
         spec_by_name = {}
         for r in reads:
@@ -375,9 +400,37 @@ class ErrorFreePart:
                     elif ta != tb:
                         ctx.violation("haplotag:relabel", "read %s outside the swapped set: tags %r -> %r" % (a.query_name, ta, tb))
                 ctx.label("relabel-checked")
+        # ---- history: tagging the tagged file again (stale tags of the first run, a second @PG whatshap entry) changes nothing
+        try:
+            if not res:
+                raise LookupError("empty output: the tool refuses an alignment file without reads")
+            pysam.index(out)
+            out3 = os.path.join(d, "tagged_again.bam")
+            run_tool(vcf, out, out3, ref, o)
+            with pysam.AlignmentFile(out3, check_sq=False) as f:
+                res3 = list(f.fetch(until_eof=True))
+                pg3 = [pg.get("ID") for pg in f.header.to_dict().get("PG", [])]
+        except LookupError:
+            res3 = None
+        except Exception as e:
+            from vlib.harness import OutputError
+            if isinstance(e, OutputError) or not any("whatshap" in (fr.filename or "") for fr in __import__("traceback").extract_tb(e.__traceback__)):
+                raise
+            ctx.violation("haplotag:rerun-crash:%s" % type(e).__name__, "haplotag on its own output: %r" % (e,))
+            res3 = None
+        if res3 is not None:
+            if [a.to_string() for a in res3] != [a.to_string() for a in res]:
+                i = next((i for i, (x, y) in enumerate(zip(res3, res)) if x.to_string() != y.to_string()), min(len(res), len(res3)))
+                ctx.violation("haplotag:rerun-differs", "haplotag applied to its own output: %d -> %d records, first difference at %d: %r vs %r" % (
+                    len(res), len(res3), i, res[i].to_string()[:200] if i < len(res) else None, res3[i].to_string()[:200] if i < len(res3) else None))
+            if len(pg3) != len(set(pg3)):
+                ctx.violation("haplotag:rerun-pg-ids", "@PG identifiers after the second run are not unique: %r" % pg3)
+            ctx.label("rerun-checked")
         ctx.nontrivial(nt)
         if o["regions"]:
             ctx.label("regions")
+        if case.get("vcf_empty_contig"):
+            ctx.label("contig-without-variants")
 
 
 # ------------------------------------------------------------------ quality model
